@@ -157,7 +157,10 @@ Definition step (requires_met : str -> res bool) (cfg : config) (oc : nat -> out
                 | Some want =>
                     match check_exception fl exc_last want with
                     | None => as_exception                     (* bare `raise`: not a traceback want *)
-                    | Some true => s3                          (* the expected exception: go on *)
+                    | Some true =>                             (* the expected exception: go on; like every passing check it
+                                                                  ends the window of unmatched output (fix F25) *)
+                        mkR (r_rs s3) [] (r_skipped s3) (r_executed s3) (r_checked s3)
+                            (r_logged s3) (r_failed s3) (r_did_import s3) (r_end s3)
                     | Some false => fail_at cfg s3 (Some i) F_gotwant
                     end
                 end
